@@ -1,0 +1,58 @@
+//go:build verif
+
+package diskfs
+
+// Machine-checked contracts for /verif (gowp). Comment-only file: it adds no code.
+
+// --- C03: every path handed to the OS is the root path followed by a reduced suffix ---
+//@ func (*Filespace).Copy [C03 C02]
+//@   at_call os.*,ioutil.*,disk.*,NewFilespace requires Confined(fs.path, $arg)
+
+//@ func (*Filespace).CopyDirectory [C03 C02]
+//@   at_call os.*,ioutil.*,disk.*,NewFilespace requires Confined(fs.path, $arg)
+
+//@ func (*Filespace).CopyFile [C03 C02]
+//@   at_call os.*,ioutil.*,disk.*,NewFilespace requires Confined(fs.path, $arg)
+
+//@ func (*Filespace).ReadDir [C03 C02]
+//@   at_call os.*,ioutil.*,disk.*,NewFilespace requires Confined(fs.path, $arg)
+
+//@ func (*Filespace).IsExist [C03 C02]
+//@   at_call os.*,ioutil.*,disk.*,NewFilespace requires Confined(fs.path, $arg)
+
+//@ func (*Filespace).IsFile [C03 C02]
+//@   at_call os.*,ioutil.*,disk.*,NewFilespace requires Confined(fs.path, $arg)
+
+//@ func (*Filespace).IsDir [C03 C02]
+//@   at_call os.*,ioutil.*,disk.*,NewFilespace requires Confined(fs.path, $arg)
+
+//@ func (*Filespace).MkdirAll [C03 C02]
+//@   at_call os.*,ioutil.*,disk.*,NewFilespace requires Confined(fs.path, $arg)
+
+//@ func (*Filespace).ReadFile [C03 C02]
+//@   at_call os.*,ioutil.*,disk.*,NewFilespace requires Confined(fs.path, $arg)
+
+//@ func (*Filespace).WriteFile [C03 C02]
+//@   at_call os.*,ioutil.*,disk.*,NewFilespace requires Confined(fs.path, $arg) || ($arg == pathdir(fullPath) && Confined(fs.path, fullPath))
+
+//@ func (*Filespace).Filespace [C03 C02]
+//@   at_call os.*,ioutil.*,disk.*,NewFilespace requires Confined(fs.path, $arg)
+
+//@ func (*Filespace).Reader [C03 C02]
+//@   at_call os.*,ioutil.*,disk.*,NewFilespace requires Confined(fs.path, $arg)
+
+//@ func (*Filespace).Writer [C03 C02]
+//@   at_call os.*,ioutil.*,disk.*,NewFilespace requires Confined(fs.path, $arg)
+
+//@ func (*Filespace).Remove [C03 C02]
+//@   at_call os.*,ioutil.*,disk.*,NewFilespace requires Confined(fs.path, $arg)
+
+//@ func (*Filespace).RemoveAll [C03 C02]
+//@   at_call os.*,ioutil.*,disk.*,NewFilespace requires Confined(fs.path, $arg)
+
+//@ func (*Filespace).Lstat [C03 C02]
+//@   at_call os.*,ioutil.*,disk.*,NewFilespace requires Confined(fs.path, $arg)
+
+
+//@ type Filespace
+//@   field path immutable
